@@ -4,6 +4,7 @@
 pub mod base {
 use vstd::prelude::*;
 use vstd::std_specs::convert::*;
+use vstd::std_specs::cmp::{OrdSpec, PartialEqSpec, PartialOrdSpec};
 // ===== shim/base.rs — assumed contracts of the cosmwasm_std API surface (trusted base T1,T2) =====
 // Everything in this file is an ASSUMPTION about a dependency crate, not code under verification.
 // Exec bodies are never run (the assembled unit is only verified), so shim types carry ghost views.
@@ -48,6 +49,21 @@ impl ToStr for String {
     #[verifier::external_body]
     fn to_string(&self) -> (r: String) { unimplemented!() }
 }
+
+// std text transformations: deterministic functions of the text, nothing more is assumed (in particular NOT that they are the identity)
+pub uninterp spec fn str_upper(s: Seq<char>) -> Seq<char>;
+pub uninterp spec fn str_lower(s: Seq<char>) -> Seq<char>;
+pub uninterp spec fn str_trim(s: Seq<char>) -> Seq<char>;
+pub assume_specification[ str::to_uppercase ](s: &str) -> (r: String) ensures r@ == str_upper(s@);
+pub assume_specification[ str::to_lowercase ](s: &str) -> (r: String) ensures r@ == str_lower(s@);
+pub assume_specification[ str::to_ascii_uppercase ](s: &str) -> (r: String) ensures r@ == str_upper(s@);
+pub assume_specification[ str::to_ascii_lowercase ](s: &str) -> (r: String) ensures r@ == str_lower(s@);
+pub assume_specification<'a>[ str::trim ](s: &'a str) -> (r: &'a str) ensures r@ == str_trim(s@);
+pub assume_specification<T, E>[ Option::<Result<T, E>>::transpose ](o: Option<Result<T, E>>) -> (r: Result<Option<T>, E>)
+    ensures
+        o is None ==> r == Ok::<Option<T>, E>(None),
+        o is Some && o->Some_0 is Ok ==> r == Ok::<Option<T>, E>(Some(o->Some_0->Ok_0)),
+        o is Some && o->Some_0 is Err ==> r == Err::<Option<T>, E>(o->Some_0->Err_0);
 
 // ---------- panics (partial-correctness mode, DESIGN §3) ----------
 pub trait UnwrapOrAbort<T> {
@@ -400,6 +416,75 @@ impl PartialEq<String> for Addr {
     fn eq(&self, other: &String) -> (r: bool) { unimplemented!() }
 }
 
+// cosmwasm_std derives Ord for Addr: the order of the address text; only "it is a total order whose Equal is equality" is assumed
+pub uninterp spec fn text_cmp(a: Seq<char>, b: Seq<char>) -> core::cmp::Ordering;
+#[verifier::external_body]
+pub broadcast proof fn axiom_text_cmp_total(a: Seq<char>, b: Seq<char>)
+    ensures (#[trigger] text_cmp(a, b) == core::cmp::Ordering::Equal) <==> a == b,
+        (text_cmp(a, b) == core::cmp::Ordering::Less) <==> (text_cmp(b, a) == core::cmp::Ordering::Greater),
+{}
+impl vstd::std_specs::cmp::PartialOrdSpecImpl for Addr {
+    open spec fn obeys_partial_cmp_spec() -> bool { true }
+    open spec fn partial_cmp_spec(&self, other: &Addr) -> Option<core::cmp::Ordering> { Some(text_cmp(self@, other@)) }
+}
+impl PartialOrd for Addr {
+    #[verifier::external_body]
+    fn partial_cmp(&self, other: &Addr) -> (r: Option<core::cmp::Ordering>) { unimplemented!() }
+}
+impl vstd::std_specs::cmp::OrdSpecImpl for Addr {
+    open spec fn obeys_cmp_spec() -> bool { true }
+    open spec fn cmp_spec(&self, other: &Addr) -> core::cmp::Ordering { text_cmp(self@, other@) }
+}
+impl Ord for Addr {
+    #[verifier::external_body]
+    fn cmp(&self, other: &Addr) -> (r: core::cmp::Ordering) { unimplemented!() }
+}
+
+// ---------- std slice methods vstd does not cover (T1: the documented behaviour of core/alloc) ----------
+pub assume_specification<T: PartialEq>[ <[T]>::contains ](s: &[T], x: &T) -> (r: bool)
+    ensures T::obeys_eq_spec() ==> r == (exists|i: int| 0 <= i < s@.len() && (#[trigger] s@[i]).eq_spec(x));
+pub assume_specification<T: Clone>[ <[T]>::to_vec ](s: &[T]) -> (r: Vec<T>)
+    ensures r@.len() == s@.len(), forall|i: int| 0 <= i < s@.len() ==> cloned::<T>(#[trigger] s@[i], r@[i]);
+pub open spec fn slice_sorted<T: Ord>(s: Seq<T>) -> bool {
+    forall|i: int, j: int| 0 <= i < j < s.len() ==> #[trigger] s[i].cmp_spec(&s[j]) != core::cmp::Ordering::Greater
+}
+// binary_search: exact on a slice sorted by Ord; on an unsorted slice std promises only that an Ok index holds an equal element
+pub assume_specification<T: Ord>[ <[T]>::binary_search ](s: &[T], x: &T) -> (r: Result<usize, usize>)
+    ensures
+        r is Ok ==> r->Ok_0 < s@.len() && (T::obeys_cmp_spec() ==> s@[r->Ok_0 as int].cmp_spec(x) == core::cmp::Ordering::Equal),
+        r is Err ==> r->Err_0 <= s@.len(),
+        T::obeys_cmp_spec() && slice_sorted(s@) && r is Err ==> (forall|i: int| 0 <= i < s@.len() ==> (#[trigger] s@[i]).cmp_spec(x) != core::cmp::Ordering::Equal)
+            && (forall|i: int| 0 <= i < r->Err_0 ==> (#[trigger] s@[i]).cmp_spec(x) == core::cmp::Ordering::Less)
+            && (forall|i: int| r->Err_0 <= i < s@.len() ==> (#[trigger] s@[i]).cmp_spec(x) == core::cmp::Ordering::Greater);
+
+// membership-level description of adding one element to a list, and the two std ways of doing it
+pub open spec fn seq_gains<T>(o: Seq<T>, n: Seq<T>, x: T) -> bool {
+    &&& n.len() == o.len() + 1
+    &&& n.contains(x)
+    &&& forall|a: T| o.contains(a) ==> #[trigger] n.contains(a)
+}
+pub broadcast proof fn lemma_push_gains<T>(o: Seq<T>, x: T)
+    ensures seq_gains(o, #[trigger] o.push(x), x),
+{
+    let n = o.push(x);
+    assert(n[o.len() as int] == x);
+    assert forall|a: T| o.contains(a) implies #[trigger] n.contains(a) by {
+        let k = choose|k: int| 0 <= k < o.len() && o[k] == a;
+        assert(n[k] == a);
+    }
+}
+pub broadcast proof fn lemma_insert_gains<T>(o: Seq<T>, i: int, x: T)
+    requires 0 <= i <= o.len(),
+    ensures seq_gains(o, #[trigger] o.insert(i, x), x),
+{
+    let n = o.insert(i, x);
+    assert(n[i] == x);
+    assert forall|a: T| o.contains(a) implies #[trigger] n.contains(a) by {
+        let k = choose|k: int| 0 <= k < o.len() && o[k] == a;
+        if k < i { assert(n[k] == a); } else { assert(n[k + 1] == a); }
+    }
+}
+
 pub proof fn lemma_addr_ext(a: Addr, b: Addr)
     ensures a@ == b@ <==> a == b,
 {}
@@ -499,6 +584,7 @@ pub broadcast proof fn lemma_into_u128_from_u8_ok(v: u8) ensures #[trigger] into
 pub broadcast proof fn lemma_into_u128_from_u8(v: u8) ensures #[trigger] into_u128::<u8>(v) == Uint128(v as u128), {}
 
 pub broadcast group group_base {
+    axiom_text_cmp_total, lemma_push_gains, lemma_insert_gains,
     axiom_uint_str_inj, axiom_str_uint_roundtrip, axiom_display_u64,
     axiom_into_u128_refl_ok, axiom_into_u128_refl,
     lemma_into_u128_from_u128_ok, lemma_into_u128_from_u128,
